@@ -64,6 +64,9 @@ PAYLOADS = [
     '"""', '""";VERIF_CANARY();"""', 'q"""q', '"""+VERIF_CANARY()+"""', '"', '""', '" + VERIF_CANARY() + "', '\\"""',
     "1 + VERIF_CANARY()", "1 if VERIF_CANARY() else 7", "0 or VERIF_CANARY()", "12 ;VERIF_CANARY()", "3.5 and VERIF_CANARY()", "7 + 41", "2 ** 10",
     "1\nVERIF_CANARY()", "007", "1_000", "0x10", "1e3", "5 # x",
+    'say "what?"', 'a"*"b', '"?"', 'x"y', '"*', 'q"+VERIF_CANARY()+"?',
+    "x(a=VERIF_CANARY()):#", "x(self, a=VERIF_CANARY()): pass\n    def y", "_0_0_0(self): return VERIF_CANARY()\n    def z", "0(self):\n        return VERIF_CANARY()\n    def q",
+    "0.00 {0.__class__.__mro__[1].__name__}", "0 {unit}", "0.0 {0}", "#,##0.00 {0!r}", "0%{x}", "0.00 {VERIF_CANARY()}", "0 {0.__init__.__globals__}", "0.0{{}}", "0}{0",
     "{titles}", "{functions}", "{sheets_size}", "{{titles}}", "a'+str(VERIF_CANARY())+'b", 'a"+str(VERIF_CANARY())+"b', "_xlfn.", "_xlws.", "_xlfn.IFS(1,2)",
     "x_xlfn.y", "📊", "𝒳 = 𝒴", "\\ud83d", "\\U0001F4CA",
     "it's", "'", "''", "'''", "a'b'c", "\\\\", "{", "}", "{}", "%", "%s", "#", "# comment", "a\nb", "\t", " ", "' '", "None", "True", "x)", "(", "f(x)",
@@ -71,7 +74,7 @@ PAYLOADS = [
 ALPHABET = "abXY01 '\\\n#{}%()+,.:;=<>*?~!@$^&|[]_-/\"`é中📊𝒳"
 LIT_ARG_FORMS = [('LEFT', '=LEFT({L},200)'), ('MID', '=MID({L},1,200)'), ('IF', '=IF(TRUE,{L},"no")'), ('IF2', '=IF(FALSE,"no",{L})'),
                  ('CONCATENATE', '=CONCATENATE("a",{L})'), ('IFERROR', '=IFERROR({L},1)'), ('amp', '="x"&{L}&"y"'), ('RIGHT', '=RIGHT({L},200)')]
-OTHER_ARG_FORMS = ['=SEARCH("q",{L})', '=SEARCH({L},"abc")', '=VALUE({L})', '=TEXT(1,{L})', '=COUNT({L})', '=IF({L}="a",1,2)', '=VLOOKUP({L},A1:B6,2,FALSE)',
+OTHER_ARG_FORMS = ['=SEARCH("q",{L})', '=SEARCH({L},"abc")', '=VALUE({L})', '=TEXT(1,{L})', '=TEXT(1.5,{L})', '=TEXT(1234.5,{L})', '=TEXT(B2,{L})', '=COUNT({L})', '=IF({L}="a",1,2)', '=VLOOKUP({L},A1:B6,2,FALSE)',
                    '=MATCH({L},A1:A6,0)', '=DATEDIF(C1,C2,{L})', '=LEFT("abc",{L})', '=SUM(1,{L})', '={L}={L}', '=IFS({L}="",1,TRUE,2)']
 CRIT_FORMS = ['=COUNTIFS(A1:A6,{L})', '=SUMIF(A1:A6,{L},B1:B6)', '=SUMIF(A1:A6,{L})', '=SUMIFS(B1:B6,A1:A6,{L})', '=AVERAGEIFS(B1:B6,A1:A6,{L})',
               '=COUNTIFS(A1:A6,"pear",A1:A6,{L})', '=SUMIFS(B1:B6,A1:A6,"fig",A1:A6,{L})']
@@ -129,7 +132,12 @@ def build(spec, benign=False):
                 o = 'b'
             put('=' + literal(s) + '&"|"&' + literal(o), s + '|' + o, i, place)
         elif place == 'other-arg':
-            put(OTHER_ARG_FORMS[st_['form'] % len(OTHER_ARG_FORMS)].replace('{L}', literal(s)), None, i, place)
+            form_ = OTHER_ARG_FORMS[st_['form'] % len(OTHER_ARG_FORMS)]
+            put(form_.replace('{L}', literal(s)), None, i, place)
+            if 'TEXT(' in form_ and ('{' in st_['s'] or '}' in st_['s']):
+                # braces are characters of a number format like any others: the same format with ( ) in their place must give the
+                # same text with ( ) in their place (whatever the function does with a format, it must not interpret the braces)
+                put(form_.replace('{L}', literal(s.replace('{', '(').replace('}', ')'))), None, i, 'text-twin')
         elif place == 'crit':
             put(CRIT_FORMS[st_['form'] % len(CRIT_FORMS)].replace('{L}', literal(s)), None, i, place)
         elif place == 'crit-op':
@@ -143,6 +151,14 @@ def build(spec, benign=False):
             put(f'={q}!A1+1', 8, i, place)
             put(f'=SUM({q}!A1:B1)', 7, i, place)
             probes.append((t, 'B2', s, i, 'title-const'))
+        elif place == 'lit-dq':
+            # Excel's spelling of a quote inside a literal is the doubled quote: accepted or not, the text is s or nothing
+            put('="' + s.replace('"', '""') + '"', s, i, place)
+        elif place == 'missing-title':
+            # a reference to a sheet the workbook does not have: whatever becomes of it (a rejection, normally), the title is text
+            q = "'" + s.replace("'", "''") + "'"
+            put(f'={q}!A1+1', None, i, place)
+            put(f'=IFERROR(SUM({q}!A1:B2),0)', None, i, place)
         else:
             raise env.HarnessError(place)
     model = {'sheets': [{'title': 'S', 'cells': cells}] + others}
@@ -277,6 +293,7 @@ def run_spec(spec, rec=None):
                     fail('text-is-inert', 'load:' + ol[1], 'a loadable module', wbk.show_outcome(ol), safety=safety)
                 continue
             ex = wbk.Executor().set_executed_class(class_object=ol[1])
+            last_other = ('timeout',)
             for (t, a, exp, i, place) in probes:
                 c, r = wbk.split_a1(a)
                 del _calls[:]
@@ -289,6 +306,16 @@ def run_spec(spec, rec=None):
                 if v[0] == 'foreign' and v[1] in ('NameError', 'SyntaxError'):
                     fail('text-is-inert', f'eval:{v[1]}:{place}', 'a value or an evaluation error of the formula', wbk.show_outcome(v), {'string': strings[i]}, safety)
                     break
+                if place == 'other-arg':
+                    last_other = v
+                if place == 'text-twin' and 'timeout' not in (v[0], last_other[0]):
+                    a_, b_ = last_other, v
+                    same = a_[0] == b_[0] and (a_[1] == b_[1] if a_[0] != 'value' else
+                                               (isinstance(a_[1], str) and isinstance(b_[1], str) and a_[1].replace('{', '(').replace('}', ')') == b_[1]) or
+                                               (not isinstance(a_[1], str) and type(a_[1]) is type(b_[1]) and a_[1] == b_[1]))
+                    if not same:
+                        fail('text-is-inert', 'format-braces-interpreted', wbk.show_outcome(b_), wbk.show_outcome(a_), {'string': strings[i], 'cell': a}, safety)
+                        break
                 if exp is not None and v[0] != 'timeout':
                     if place in ('const', 'title-const'):
                         exp = stored.get((t, a), exp)
@@ -335,7 +362,7 @@ def strategy():
     from hypothesis import strategies as st
     raw = st.one_of(st.sampled_from(PAYLOADS), st.sampled_from(PAYLOADS), st.text(alphabet=ALPHABET, min_size=0, max_size=14),
                     st.tuples(st.sampled_from(PAYLOADS), st.sampled_from(PAYLOADS)).map(lambda t: t[0] + t[1]))
-    place = st.sampled_from(['const', 'lit', 'lit', 'lit-arg', 'lit-arg', 'lit-amp', 'other-arg', 'crit', 'crit', 'crit-op', 'crit-op', 'crit-amp', 'title'])
+    place = st.sampled_from(['const', 'lit', 'lit', 'lit-arg', 'lit-arg', 'lit-amp', 'other-arg', 'crit', 'crit', 'crit-op', 'crit-op', 'crit-amp', 'title', 'missing-title'])
 
     @st.composite
     def spec(draw):
@@ -396,7 +423,7 @@ def run_shard(spec, rec):
                 for f in run_spec(c, rec):
                     rec.fail(**f)
         # every payload once in every placement
-        places = ['lit', 'lit-arg', 'lit-amp', 'other-arg', 'crit', 'crit-op', 'crit-amp', 'title', 'const']
+        places = ['lit', 'lit-arg', 'lit-amp', 'other-arg', 'crit', 'crit-op', 'crit-amp', 'title', 'const', 'missing-title', 'lit-dq']
         for pi, p in enumerate(PAYLOADS):
             if pi % 12 != spec['part']:
                 continue
@@ -404,13 +431,18 @@ def run_shard(spec, rec):
                 break
             for place in places:
                 s = p + marker(0)
-                if place not in ('const', 'title'):
+                if place == 'lit-dq' and '"' not in s:
+                    continue
+                if place not in ('const', 'title', 'lit-dq'):
                     s = s.replace('"', "'")
                 if place == 'title':
                     s = ''.join(ch for ch in s if ch not in '\\/?*[]:\n\t\r')[:31].strip().strip("'")
                     if marker(0) not in s or not s:
                         continue
-                for form in ((pi, pi + 3) if place in ('lit-arg', 'crit', 'crit-op', 'crit-amp', 'other-arg') else (0,)):
+                forms_ = (pi, pi + 3) if place in ('lit-arg', 'crit', 'crit-op', 'crit-amp', 'other-arg') else (0,)
+                if place == 'other-arg' and '{' in p:
+                    forms_ += (3, 4, 5, 6)    # the TEXT forms: a number format with braces
+                for form in forms_:
                     for f in run_spec({'strings': [{'s': s, 'place': place, 'form': form}], 'safety': False}, rec):
                         rec.fail(**f)
 
